@@ -1,7 +1,7 @@
 """C05 — global timestamp order under the grace period: structural conditions (DESIGN §4 C05)."""
 import re
 from qlib import (AnalysisBroken, strip, isnode, walk, is_call, norm_cmp, var_ref, is_null, const_val, short, call_obj,
-                  expr_key, field_name, is_this_field)
+                  expr_key, field_name, is_this_field, peel_not, children)
 from rules.common import (core_and_neg, tnode, other, cpos, npos, branches_on_call, flatten, in_subtree, loops_enclosing,
                           need_some, returns_bool, straight_after, other_loop_over)
 from rules.c02 import cmp_sides
@@ -38,6 +38,7 @@ def run(ctx):
         r5(ctx, facts, cfg)
         r5_clock_table(ctx, facts, cfg)
         options_read_only(ctx, facts, cfg)
+        r7_tsc_slots(ctx, facts, cfg)
         # the set of threads whose oldest statements are compared is every thread that logs (registration / cache reload, = C20.R5)
         from rules import c20
         from rules.c09 import Renamed
@@ -421,6 +422,205 @@ def r5_clock_table(ctx, facts, cfg):
     ctx.ob("C05.R5d", "_populate_transit_event_from_frontend_queue:tsc-converted-exactly", ok,
            "the record's timestamp is replaced by RdtscClock::time_since_epoch(timestamp) exactly for loggers whose clock source is Tsc, "
            "on every path before it is compared or buffered (cycle counts and epoch nanoseconds are never mixed in the ordering)", fn=df)
+
+
+RC = "quill::detail::RdtscClock::"
+
+
+def _slot_index(f, idx):
+    """decompose the subscript of `_base`: (K, mask_key, did of the local holding the version or None) for `(V + K) & M` / `V & M` where V is
+    a load of `_version` or a local whose only definition is such a load; anything else is a shape no rule here understands"""
+    from qlib import atomic_op
+    inits = f.var_inits()
+
+    def is_version_load(e):
+        a = atomic_op(strip(e, casts=True))
+        return bool(a and a["kind"] == "load" and is_this_field(a["obj"], "_version"))
+
+    def version_of(e):
+        """(ok, did, load-nodes)"""
+        e = strip(e, casts=True)
+        if is_version_load(e):
+            return True, None
+        v = var_ref(e)
+        if v is not None:
+            defs = ([inits[v]] if inits.get(v) is not None else []) + [a["rhs"] for a in f.assignments_to_var(v)]
+            if defs and all(is_version_load(d) for d in defs):
+                return True, v
+        return False, None
+
+    e = strip(idx, casts=True)
+    v = var_ref(e)
+    if v is not None:
+        if inits.get(v) is None or f.assignments_to_var(v):
+            raise AnalysisBroken("RdtscClock: the slot index %s is not a local initialised once" % expr_key(idx, True))
+        e = strip(inits[v], casts=True)
+    if not (isnode(e) and e["k"] == "BinaryOperator" and e["op"] == "&"):
+        raise AnalysisBroken("RdtscClock: slot index of unknown shape: %s" % expr_key(e, True))
+    for ver, mask in ((e["lhs"], e["rhs"]), (e["rhs"], e["lhs"])):
+        ver = strip(ver, casts=True)
+        ok, did = version_of(ver)
+        if ok:
+            return 0, expr_key(strip(mask, casts=True)), did
+        if isnode(ver) and ver["k"] == "BinaryOperator" and ver["op"] == "+":
+            for a, b in ((ver["lhs"], ver["rhs"]), (ver["rhs"], ver["lhs"])):
+                ok, did = version_of(a)
+                if ok and const_val(b) is not None:
+                    return const_val(b), expr_key(strip(mask, casts=True)), did
+    raise AnalysisBroken("RdtscClock: slot index of unknown shape: %s" % expr_key(e, True))
+
+
+def _base_subscripts(f):
+    return [n for n in f.walk() if n["k"] == "CXXOperatorCallExpr" and (n.get("callee") or "").endswith("::operator[]") and
+            len(n.get("args") or []) == 2 and is_this_field(n["args"][0], "_base")]
+
+
+def r7_tsc_slots(ctx, facts, cfg):
+    """R7: the two-slot hand-over inside the TSC converter (RdtscClock): resync fills the slot that the next conversion reads, fills it
+    completely before it publishes, only with a sample taken inside the accepted lag; the conversions read both values of one slot"""
+    from qlib import atomic_op
+    rs = facts.need(RC + "resync", cfg)[0]
+    g = rs.g
+    subs = _base_subscripts(rs)
+    stores = [n for n in rs.walk() if n["k"] == "BinaryOperator" and n["op"] == "=" and field_name(n["lhs"]) in ("base_time", "base_tsc") and
+              any(strip(n["lhs"]).get("base") is not None and in_subtree(s, n["lhs"]) for s in subs)]
+    pubs = [n for n in rs.walk() if (atomic_op(n) or {}).get("kind") in ("rmw", "store") and is_this_field(atomic_op(n)["obj"], "_version")]
+    if not stores or not pubs:
+        raise AnalysisBroken("RdtscClock::resync: no store into a slot of _base / no update of _version (%d, %d)" % (len(stores), len(pubs)))
+    widx = set(_slot_index(rs, s["args"][1]) for s in subs)
+    one = len(widx) == 1
+    K, M, _ = sorted(widx, key=str)[0]
+    pub_ok = all(atomic_op(p)["op"] == "fetch_add" and const_val(atomic_op(p).get("value")) == K for p in pubs) and len(pubs) == 1
+    bt = facts.cls(RC.rstrip(":"), cfg) if hasattr(facts, "cls") else None
+    size = None
+    for fld in (bt or {}).get("fields", []):
+        if fld["name"] == "_base":
+            m = re.search(r"std::array<.*,\s*(\d+)>", fld.get("cty") or fld.get("ty") or "")
+            size = int(m.group(1)) if m else None
+    if size is None:
+        raise AnalysisBroken("RdtscClock::_base: number of slots not found")
+    pow2 = size >= 2 and (size & (size - 1)) == 0
+    readers = []
+    for nm in ("time_since_epoch", "time_since_epoch_safe"):
+        f = facts.need(RC + nm, cfg)[0]
+        ridx = set(_slot_index(f, s["args"][1]) for s in _base_subscripts(f))
+        if not ridx:
+            raise AnalysisBroken("RdtscClock::%s reads no slot of _base" % nm)
+        readers.append((f, nm, ridx))
+    r_ok = all(len(ridx) == 1 and list(ridx)[0][0] == 0 and list(ridx)[0][1] == M for (_f, _n, ridx) in readers)
+    mm = re.match(r"^\(std::array::size\(this\._base;?\) - (\d+)\)$", M)
+    if mm:
+        mask = size - int(mm.group(1))
+    elif re.match(r"^\d+$", M):
+        mask = int(M)
+    else:
+        raise AnalysisBroken("RdtscClock: slot mask of unknown shape: %s" % M)
+    ctx.ob("C05.R7a", "RdtscClock:resync-fills-the-slot-read-next", one and pub_ok and r_ok and pow2 and K is not None and K % size != 0 and mask == size - 1,
+           "resync writes slot (version + %s) & %s and publishes by adding %s to the version (one update: %s); both conversions read slot "
+           "version & the same mask (%s); %d slots (a power of two: %s), so the slot being filled is never the one being read and the next "
+           "conversion reads what was filled" % (K, M, [const_val(atomic_op(p).get("value")) for p in pubs], len(pubs) == 1,
+                                              [sorted(r, key=str) for (_f, _n, r) in readers], size, pow2), fn=rs)
+    # R7b: the slot is complete before it is published; the publish is a release, the lock-free reader's loads are acquires
+    sp = npos(rs, stores)
+    pp = npos(rs, pubs)
+    by_field = {}
+    for n in stores:
+        by_field.setdefault(field_name(n["lhs"]), []).append(n)
+    complete = set(by_field) == {"base_time", "base_tsc"} and \
+        all(not g.exists_path([g.entry_node], pp, avoid_nodes=npos(rs, by_field[k])) for k in by_field)
+    # no store into the slot after the publish within the same attempt (a later attempt starts with fresh samples: back edge of the loop)
+    after = any(g.exists_path([p], [s], avoid_nodes=npos(rs, [n for n in rs.walk() if n["k"] == "Var" and n.get("name") and
+                                                              any(is_call(x, r"::rdtsc$") for x in walk(n.get("init") or {}))])) for p in pp for s in sp)
+    rel = all(is_release_order(atomic_op(p).get("order")) for p in pubs)
+    safe = [f for (f, nm, _r) in readers if nm == "time_since_epoch_safe"][0]
+    lds = [atomic_op(n) for n in safe.walk() if (atomic_op(n) or {}).get("kind") == "load" and is_this_field(atomic_op(n)["obj"], "_version")]
+    acq = len(lds) >= 2 and all(a.get("order") in ("acquire", "seq_cst", "acq_rel") for a in lds)
+    ctx.ob("C05.R7b", "RdtscClock:slot-complete-before-published", complete and not after and rel and acq,
+           "both values of the slot (%s) are stored on every path to the version update and none after it; the update is a release (%s); "
+           "the reader that any thread may call loads the version with acquire before and after reading the slot (%s)"
+           % (sorted(by_field), [atomic_op(p).get("order") for p in pubs], [a.get("order") for a in lds]), fn=rs)
+    # R7c: the retry of the lock-free reader: it returns only when the version it derived the slot from is still the current one
+    sg = safe.g
+    vdid = list(readers[1][2])[0][2]
+    retry = []
+    for bid in sg.blocks:
+        c = sg.term_cond(bid)
+        if c is None:
+            continue
+        core = peel_not(c)
+        if isnode(core) and core["k"] == "BinaryOperator" and core["op"] in ("==", "!="):
+            sides = [strip(core["lhs"], casts=True), strip(core["rhs"], casts=True)]
+            ld = [x for x in sides if (atomic_op(x) or {}).get("kind") == "load" and is_this_field(atomic_op(x)["obj"], "_version")]
+            vr = [x for x in sides if var_ref(x) is not None and var_ref(x) == vdid]
+            if ld and vr:
+                nc = norm_cmp(c)
+                retry.append((bid, "T" if nc[0] == "!=" else "F"))  # label on which the version has CHANGED
+    rets = [n for n in safe.walk() if n["k"] == "ReturnStmt"]
+    slot_reads = npos(safe, _base_subscripts(safe))
+    ok_c = vdid is not None and len(retry) == 1
+    if ok_c:
+        b, lab = retry[0]
+        # on 'changed' control goes back to a fresh load of the version (no return reachable without passing the version load again)
+        reload_pos = npos(safe, [n for n in safe.walk() if (atomic_op(n) or {}).get("kind") == "load" and is_this_field(atomic_op(n)["obj"], "_version") and
+                                 not in_subtree(n, sg.term_cond(b))])
+        ret_pos = npos(safe, rets)
+        ok_c = bool(reload_pos) and not sg.exists_path([tnode(sg, b)], ret_pos, avoid_nodes=reload_pos, avoid_edges=[(b, other(lab))]) and \
+            sg.exists_path([tnode(sg, b)], ret_pos, avoid_edges=[(b, lab)], avoid_nodes=reload_pos)
+        # a value computed from the slot is returned only through the check (the 'not calibrated yet' return of 0 reads no time from the slot)
+        val_rets = [r for r in rets if const_val(r.get("val") if "val" in r else (list(children(r)) or [None])[0]) is None]
+        ok_c = ok_c and bool(val_rets) and all(not sg.exists_path(slot_reads, npos(safe, [r]), avoid_nodes=[tnode(sg, b)]) or
+                                                not sg.exists_path([sg.entry_node], npos(safe, [r]), avoid_nodes=[tnode(sg, b)]) for r in val_rets)
+    ctx.ob("C05.R7c", "RdtscClock::time_since_epoch_safe:retry-until-version-unchanged", ok_c,
+           "the reader compares the version it derived the slot from with a fresh acquire load; when they differ it loads the version again "
+           "before anything is returned, when they agree it returns; a converted value leaves only through that comparison (%s)" % retry, fn=safe)
+    # R7d: only a sample taken within the accepted lag is stored: wall clock read between the two counter reads, stores only on 'end - beg <= lag'
+    inits = rs.var_inits()
+    tsc_vars = [d for d, i in inits.items() if i is not None and any(is_call(x, r"::rdtsc$") for x in walk(i))]
+    wall_vars = [d for d, i in inits.items() if i is not None and any(is_call(x, r"::get_timestamp_ns<.*system_clock") for x in walk(i))]
+    decls = rs.var_decls()
+    ok_d = len(tsc_vars) == 2 and len(wall_vars) == 1
+    lagp = rs.rec["params"][0]["did"]
+    guard = []
+    if ok_d:
+        pos = {d: npos(rs, [decls[d]]) for d in tsc_vars + wall_vars}
+        first, second = sorted(tsc_vars, key=lambda d: decls[d]["id"])
+        w = wall_vars[0]
+        ok_d = not g.exists_path([g.entry_node], pos[w], avoid_nodes=pos[first]) and not g.exists_path(pos[first], pos[second], avoid_nodes=pos[w])
+        diff = "(v%s - v%s)" % (second, first)
+        for bid in g.blocks:
+            c = g.term_cond(bid)
+            nc = norm_cmp(c) if c is not None else None
+            if nc and nc[0] in ("<", "<=") and set((nc[1], nc[2])) == {diff, "v%s" % lagp}:
+                # norm_cmp folds negations and flips: the normalised comparison holds on the raw true edge
+                guard.append((bid, "T" if nc[1] == diff else "F"))  # label of 'within the lag'
+        bt_src = all(var_ref(n["rhs"]) == w for n in by_field.get("base_time", []))
+        tsc_src = all(set(var_ref(x) for x in walk(n["rhs"]) if var_ref(x) is not None) >= {first, second} for n in by_field.get("base_tsc", []))
+        ok_d = ok_d and len(guard) == 1 and bt_src and tsc_src
+        if ok_d:
+            ok_d = not g.exists_path([g.entry_node], sp + pp, avoid_edges=guard)
+    ctx.ob("C05.R7d", "RdtscClock::resync:sample-within-lag", ok_d,
+           "the wall clock is read between the two counter reads; the slot is written and published only on the outcome 'second - first "
+           "within the lag'; base_time is that wall clock value, base_tsc is computed from both counter reads", fn=rs)
+    # R7e: the backend's conversion uses tsc and time of one slot, combines them as base_time + (tsc - base_tsc) * ns-per-tick, and re-synchronises
+    te = readers[0][0]
+    tg = te.g
+    rsc = te.calls(r"RdtscClock::resync$")
+    over = []
+    for bid in tg.blocks:
+        c = tg.term_cond(bid)
+        nc = norm_cmp(c) if c is not None else None
+        if nc and nc[0] in ("<", "<=") and "this._resync_interval_ticks" in (nc[1], nc[2]):
+            # interval < diff  <=>  diff > interval : label on which the interval is exceeded
+            # norm_cmp folds negations and flips: the normalised comparison holds on the raw true edge
+            over.append((bid, "T" if nc[1] == "this._resync_interval_ticks" else "F"))
+    ok_e = bool(rsc) and len(over) == 1 and not tg.exists_path([tg.entry_node], npos(te, rsc), avoid_edges=over) and \
+        tg.exists_path([tg.entry_node], npos(te, rsc))
+    ctx.ob("C05.R7e", "RdtscClock::time_since_epoch:resync-when-interval-exceeded", ok_e,
+           "the backend's conversion calls resync exactly on the outcome 'ticks since the base exceed the resync interval' (%s)" % over, fn=te)
+
+
+def is_release_order(o):
+    return o in ("release", "seq_cst", "acq_rel")
 
 
 def only_boolean_use(f, node, depth=0):
